@@ -1027,7 +1027,11 @@ func ruleNoTxStateInStores(c *Ctx, rule string) {
 			if nm.Obj().Pkg().Name() == "boltz" && name == "TypedBucket" {
 				return "boltz.TypedBucket"
 			}
-			if ta := nm.TypeArgs(); ta != nil {
+			var ta *types.TypeList
+			if inst, isN := deref(t).(*types.Named); isN {
+				ta = inst.TypeArgs() // (namedOf answers the generic origin, which has none)
+			}
+			if ta != nil {
 				for i := 0; i < ta.Len(); i++ {
 					if h := holdsTx(ta.At(i), d+1, seen); h != "" {
 						return h
@@ -1144,4 +1148,87 @@ func ruleDeleteMembership(c *Ctx, rule string) {
 	}
 	c.CallSites(n)
 	c.Floor(rule, 2)
+}
+
+// ruleStampOnlyMeta (C17.STAMPONLY): the transaction that stamps the snapshot copy touches nothing but the
+// metadata bucket — whatever it is handed of the transaction goes to the path lookup of that bucket and nowhere
+// else. Anything else it creates in the copy did not exist when the snapshot was taken.
+// ruleResetFlagOnce (C17.RESETONCE): "reset the timeline" is asked for only by the stamp; it is set to true
+// nowhere else (a second asker makes the restored database take a fresh timeline id twice).
+func ruleSnapshotStamp(c *Ctx, ruleStamp, ruleReset string) {
+	p := c.P
+	mark := p.SSAFunc(p.Method("boltz", "DbImpl", "MarkAsSnapshot"))
+	c.Analysed(FnName(mark))
+	n := 0
+	for _, f := range allFuncsWithAnon(mark) {
+		if f == mark {
+			continue
+		}
+		for _, call := range callsIn(f) {
+			cv, ok := call.(*ssa.Call)
+			if !ok || !cv.Call.IsInvoke() || cv.Call.Method.Name() != "Tx" {
+				continue
+			}
+			n++
+			var bad ssa.Instruction
+			if refs := cv.Referrers(); refs != nil {
+				for _, r := range *refs {
+					if _, isDbg := r.(*ssa.DebugRef); isDbg {
+						continue
+					}
+					okUse := false
+					if k, isCall := r.(ssa.CallInstruction); isCall {
+						if cal, _ := calleeOf(k.Common()); cal != nil && cal.Pkg() != nil && cal.Pkg().Name() == "boltz" && (cal.Name() == "GetOrCreatePath" || cal.Name() == "Path") && len(k.Common().Args) > 0 && k.Common().Args[0] == ssa.Value(cv) {
+							okUse = true
+						}
+					}
+					if !okUse && bad == nil {
+						bad = r
+					}
+				}
+			}
+			why := ""
+			if bad != nil {
+				why = "the transaction of the stamp is handed to something other than the lookup of the metadata bucket (" + describeInstr(bad) + " at " + p.Pos(bad.Pos()) + "): whatever that creates or changes in the copy — a root bucket made on demand — was not in the database when the snapshot was taken, and is there after the restore"
+			}
+			c.Check(bad == nil, ruleStamp, FnName(f)+": transaction of the stamp", p.Pos(cv.Pos()), "the stamp's transaction is only used to find the metadata bucket", why)
+		}
+	}
+	c.Floor(ruleStamp, 1)
+	// RESETONCE
+	var key string
+	if k, ok := p.Obj("boltz", "ResetTimeline").(*types.Const); ok {
+		key = constant.StringVal(k.Val())
+	}
+	m := 0
+	for _, fn := range c.prodFuncs("boltz") {
+		for _, call := range callsIn(fn) {
+			cal, _ := calleeOf(call.Common())
+			if cal == nil || cal.Name() != "SetBool" {
+				continue
+			}
+			args := call.Common().Args
+			if len(args) < 3 {
+				continue
+			}
+			kc, isK := args[1].(*ssa.Const)
+			if !isK || kc.Value == nil || kc.Value.Kind() != constant.String || constant.StringVal(kc.Value) != key {
+				continue
+			}
+			vc, isV := args[2].(*ssa.Const)
+			if isV && vc.Value != nil && vc.Value.Kind() == constant.Bool && !constant.BoolVal(vc.Value) {
+				continue // clearing the flag
+			}
+			m++
+			inMark := false
+			for g := fn; g != nil; g = g.Parent() {
+				if g == mark {
+					inMark = true
+				}
+			}
+			c.Check(inMark, ruleReset, FnName(fn)+": sets "+key, p.Pos(call.Pos()), "the reset of the timeline is asked for by the snapshot stamp only", "the timeline reset flag is set outside the snapshot stamp: after a restore the flag the stamp left is consumed by the first GetTimelineId, and a second asker (a restore listener, running later) sets it again — the restored database takes a fresh timeline id twice")
+		}
+	}
+	c.CallSites(n + m)
+	c.Floor(ruleReset, 1)
 }
